@@ -18,11 +18,13 @@ import (
 
 var vCoreIDs = []string{"0", "1", "2", "3"}
 
-// vCPU: a CPU amount on the 1/64-core grid (exact in binary floating point),
-// together with the integer it was built from.
+// vCPU: a CPU amount on the 1/4096-core grid (exact in binary floating point;
+// fine enough for 1024*frac to need rounding), with the integer it was built from.
+const vDen = 4096
+
 func vCPU(name string, maxCores int) (float64, int) {
-	m := vInt(name, 0, maxCores*64)
-	return float64(m) / 64, m
+	m := vInt(name, 0, maxCores*vDen)
+	return float64(m) / vDen, m
 }
 
 // vCheckBound: pinned to exactly the map's cores (and NUMA node), unrestricted
@@ -46,9 +48,9 @@ func vCheckBound(r dockercontainer.Resources, chosen []bool, n int, numa string,
 	vObserve("cpuset", strings.Join(ids, ","))
 	vAssert("C31/cpuset-mems-is-numa-node", r.CpusetMems == numa)
 	vAssert("C31/bound-quota-unrestricted", r.CPUQuota == -1)
-	frac := m % 64
-	// shares proportional to the fractional core: round(1024*frac/64)
-	wantShares := vIte(frac > 0, (1024*frac+32)/64, 1024)
+	frac := m % vDen
+	// shares proportional to the fractional core: round(1024*frac/4096), half up
+	wantShares := vIte(frac > 0, (frac+2)/4, 1024)
 	vAssert("C31/shares-proportional-to-fraction", r.CPUShares == int64(wantShares))
 }
 
@@ -57,10 +59,10 @@ func vCheckBound(r dockercontainer.Resources, chosen []bool, n int, numa string,
 func VerifResourceSetting(arg string) {
 	n := vParam(arg, "cores", 2)
 	remap := vParam(arg, "remap", 0) == 1
-	cpu, m := vCPU("cpu_64ths", 8)
+	cpu, m := vCPU("cpu_4096ths", 8)
 	special := vChoose("cpu_special", 3) // 0: the grid value, 1: unlimited (-1), 2: zero
 	if special == 1 {
-		cpu, m = -1, -64
+		cpu, m = -1, -vDen
 	} else if special == 2 {
 		cpu, m = 0, 0
 	}
@@ -143,7 +145,7 @@ func VerifUpdateResource(arg string) {
 	cl := &vClient{ncpu: 3}
 	e := &Engine{client: cl}
 	e.config.Scheduler.ShareBase = 100
-	cpu, m := vCPU("cpu_64ths", 8)
+	cpu, m := vCPU("cpu_4096ths", 8)
 	memory := vInt64("memory", 0, 1<<50)
 	vAssume(vOr(memory == 0, memory >= int64(minMemory)))
 	cpuMap := map[string]int64{}
@@ -171,11 +173,9 @@ func VerifUpdateResource(arg string) {
 	} else {
 		vAssert("C31/memory-capped-at-limit", vAnd(r.Memory == memory, r.MemorySwap == memory))
 	}
-	zeroQuota := m == 0
+	zeroQuota := vConcrete(vIte(m == 0, 1, 0)) == 1
 	if zeroQuota || len(cpuMap) == 0 {
-		// zero quota or no cpu map: all cores
-		all := make([]bool, 4)
-		all[0], all[1], all[2] = true, true, true
+		// zero quota or no cpu map: not pinned, i.e. all cores
 		got := map[string]bool{}
 		for _, id := range strings.Split(r.CpusetCpus, ",") {
 			got[id] = true
@@ -183,9 +183,14 @@ func VerifUpdateResource(arg string) {
 		for i := 0; i < 3; i++ {
 			vAssert("C31/update-unbound-uses-all-cores", got[vCoreIDs[i]])
 		}
-		vAssert("C31/update-unbound-quota-unrestricted", r.CPUQuota == -1)
 		if zeroQuota {
+			vAssert("C31/update-zero-quota-is-unrestricted", r.CPUQuota == -1)
 			vAssert("C31/update-zero-quota-clears-numa", r.CpusetMems == "")
+		} else {
+			// an unbound workload keeps a CPU quota equal to its CPU limit
+			q := float64(r.CPUQuota)
+			want := cpu * float64(corecluster.CPUPeriodBase)
+			vAssert("C31/update-unbound-quota-equals-cpu-limit", vAnd(q <= want, want < q+1))
 		}
 		vCover("update-unbound", true)
 		return
